@@ -105,6 +105,14 @@ type CallAnn struct {
 	seen    int
 }
 
+// OwnsClause: `owns X by Y [when C]` — the function allocates X (obligation: X is fresh) and the uninterpreted,
+// state-independent owner function is fixed to ownerOf(X) == Y (assumed; callers see it as a postcondition).
+type OwnsClause struct {
+	X, Y, When Expr
+	Text       string
+	Line       int
+}
+
 type GhostUpd struct {
 	Name string
 	E    Expr
@@ -134,6 +142,7 @@ type FuncContract struct {
 	Dispatch    map[string][]string // interface type key -> allowed dynamic types
 	Cases       []Clause            // case split on entry values: every obligation is discharged per case
 	Reveal      map[string]bool     // opaque predicates whose definition is visible while verifying this function
+	Owns        []OwnsClause        // ghost ownership assignments for objects allocated by this function
 	Extern      bool
 	IfaceMethod bool
 	Sig         string
@@ -633,7 +642,7 @@ func parseExprString(s string) (e Expr, err error) {
 // Contract file reader
 
 var topKeywords = map[string]bool{"opaque": true, "deterministic": true, "func": true, "ghost": true, "ufunc": true, "pure": true, "pred": true, "axiom": true, "lemma": true, "type": true, "extern": true}
-var clauseKeywords = map[string]bool{"reveal": true, "cases": true, "dispatch": true, "requires": true, "ensures": true, "modifies": true, "serves": true, "loop": true, "invariant": true,
+var clauseKeywords = map[string]bool{"owns": true, "reveal": true, "cases": true, "dispatch": true, "requires": true, "ensures": true, "modifies": true, "serves": true, "loop": true, "invariant": true,
 	"at": true, "after": true, "assert": true, "assume": true, "flag": true, "set": true}
 
 type rawLine struct {
@@ -956,6 +965,30 @@ func readSpecFile(path string, isSpec bool) (*SpecFile, error) {
 				for _, f := range strings.FieldsFunc(rest, func(r rune) bool { return r == ' ' || r == ',' || r == ';' }) {
 					cur.Serves = append(cur.Serves, f)
 				}
+			case "owns":
+				txt := rest
+				var whenE Expr
+				if i := strings.Index(txt, " when "); i >= 0 {
+					e, err := parseExprString(txt[i+6:])
+					if err != nil {
+						return nil, perr(g, err)
+					}
+					whenE = e
+					txt = txt[:i]
+				}
+				i := strings.Index(txt, " by ")
+				if i < 0 {
+					return nil, perr(g, fmt.Errorf("owns needs 'X by Y'"))
+				}
+				xe, err := parseExprString(txt[:i])
+				if err != nil {
+					return nil, perr(g, err)
+				}
+				ye, err := parseExprString(txt[i+4:])
+				if err != nil {
+					return nil, perr(g, err)
+				}
+				cur.Owns = append(cur.Owns, OwnsClause{X: xe, Y: ye, When: whenE, Text: rest, Line: g.line})
 			case "reveal":
 				if cur.Reveal == nil {
 					cur.Reveal = map[string]bool{}
